@@ -107,7 +107,14 @@ func ConcatItems[T any](items []T) (T, error) {
 		return t, err
 	}
 
-	return cv.Interface().(T), nil
+	out := cv.Interface()
+	if out == nil {
+		// every chunk is the nil value of the interface type T: so is the result
+		var t T
+		return t, nil
+	}
+
+	return out.(T), nil
 }
 
 func concatMaps(ms reflect.Value) (reflect.Value, error) {
